@@ -63,6 +63,13 @@ def pwhashStr (argon2 : Argon2Fn) (pwd salt : Bytes) (opslimit memlimit : Nat) :
   let hash ← argon2 Argon2id tCost mCost 1 pwd salt STR_HASHBYTES
   pure (encode .argon2id tCost mCost salt hash)
 
+/-- `PwHash::to_string(&self)` (/repo/src/pwhash.rs) for `self = { hash, salt, config = { opslimit, memlimit,
+algorithm, .. } }`: `let (t_cost, m_cost) = convert_costs(self.config.opslimit, self.config.memlimit);` then
+`pwhash_to_string(&self.config.algorithm, t_cost, m_cost, self.salt, self.hash)`.  Infallible in the Rust. -/
+def objToString (alg : Alg) (opslimit memlimit : Nat) (salt hash : Bytes) : Str :=
+  let (tCost, mCost) := convertCosts opslimit memlimit
+  encode alg tCost mCost salt hash
+
 /-- `PwHash::from_string(s)?.to_string()` along the path the code takes: `opslimit = t_cost as u64`,
 `memlimit = 1024 * (m_cost as usize)` (checked `usize` product, 64-bit target), then `to_string`
 calls `convert_costs(opslimit, memlimit)` again before `pwhash_to_string`. -/
